@@ -8,7 +8,15 @@
 //! forms:  one record; two sorted records (the string first or second); one record plus a
 //!         version-1 language tag carrying the string.
 
+//!
+//! The same module also runs two smaller text families the serde tape cannot reach within k
+//! (five or more deviations deep): `post` version 2 glyph names (Pascal strings; `Post::new_v2`) and
+//! `meta` data maps ('dlng' ScriptLangTags lists and an opaque-bytes entry).
+
 use super::{strong, Ctx, Local, Plain, TypeOps};
+use write_fonts::tables::meta::{DataMapRecord, Meta, Metadata, ScriptLangTag};
+use write_fonts::tables::post::Post;
+use write_fonts::types::Tag;
 use crate::tde::boundary_strings;
 use serde_json::{json, Value};
 use write_fonts::tables::name::{LangTagRecord, Name, NameRecord};
@@ -40,6 +48,70 @@ fn one(ctx: &Ctx, ops: &TypeOps, pair: (u16, u16), si: usize, form: &str, l: &mu
     l.cnt("name_family_cases");
     let case = || json!({"source": "name_family", "pair": [pair.0, pair.1], "string_index": si, "string": s.chars().take(8).collect::<String>(), "form": form});
     strong::<Name, Plain>(ctx, ops, &v, &case, " (name family)", true, l);
+}
+
+pub const POST_FORMS: &[&str] = &["only", "after_notdef", "before_custom", "twice"];
+pub const META_FORMS: &[&str] = &["dlng_one", "dlng_first_of_two", "dlng_second_of_two", "other_bytes"];
+
+fn text_case(ctx: &Ctx, reg: &[TypeOps], family: &str, si: usize, form: &str, l: &mut Local) {
+    let strings = boundary_strings();
+    let Some(s) = strings.get(si) else { return };
+    let case = || json!({"source": "text_family", "family": family, "string_index": si, "string": s.chars().take(8).collect::<String>(), "form": form});
+    l.evals += 1;
+    match family {
+        "post" => {
+            let Some(ops) = reg.iter().find(|o| o.module == "post" && o.name == "Post") else { return };
+            let names: Vec<&str> = match form {
+                "after_notdef" => vec![".notdef", s],
+                "before_custom" => vec![s, "custom"],
+                "twice" => vec![s, "A", s],
+                _ => vec![s],
+            };
+            let v = Post::new_v2(names);
+            l.cnt("post_family_cases");
+            strong::<Post, Plain>(ctx, ops, &v, &case, " (post glyph-name family)", true, l);
+        }
+        _ => {
+            let Some(ops) = reg.iter().find(|o| o.module == "meta" && o.name == "Meta") else { return };
+            let tag = |t: &str| ScriptLangTag::new(t.to_string()).expect("ScriptLangTag::new is infallible");
+            let data = match form {
+                "dlng_first_of_two" => (Tag::new(b"dlng"), Metadata::ScriptLangTags(vec![tag(s), tag("a")])),
+                "dlng_second_of_two" => (Tag::new(b"dlng"), Metadata::ScriptLangTags(vec![tag("a"), tag(s)])),
+                "other_bytes" => (Tag::new(b"appl"), Metadata::Other(s.as_bytes().to_vec())),
+                _ => (Tag::new(b"dlng"), Metadata::ScriptLangTags(vec![tag(s)])),
+            };
+            let v = Meta::new(vec![DataMapRecord::new(data.0, data.1)]);
+            l.cnt("meta_family_cases");
+            strong::<Meta, Plain>(ctx, ops, &v, &case, " (meta text family)", true, l);
+        }
+    }
+}
+
+pub fn run_text_families(ctx: &Ctx, reg: &[TypeOps], l: &mut Local) {
+    ctx.run.bound(
+        "post_and_meta_text_families",
+        json!({"strings": "the string alphabet", "post_v2_forms": POST_FORMS, "meta_forms": META_FORMS}),
+    );
+    for si in 0..boundary_strings().len() {
+        for form in POST_FORMS {
+            text_case(ctx, reg, "post", si, form, l);
+        }
+        for form in META_FORMS {
+            text_case(ctx, reg, "meta", si, form, l);
+        }
+    }
+}
+
+pub fn replay_text(ctx: &Ctx, reg: &[TypeOps], case: &Value, l: &mut Local) {
+    let family = if case["family"].as_str() == Some("post") { "post" } else { "meta" };
+    let si = case["string_index"].as_u64().unwrap_or(0) as usize;
+    let form = POST_FORMS
+        .iter()
+        .chain(META_FORMS.iter())
+        .find(|f| Some(**f) == case["form"].as_str())
+        .copied()
+        .unwrap_or("only");
+    text_case(ctx, reg, family, si, form, l);
 }
 
 pub fn run_family(ctx: &Ctx, reg: &[TypeOps], l: &mut Local) {
